@@ -24,11 +24,16 @@ FLOOR = 0.5
 ASSUMPTIONS = ["RM-narrow: integer < number, date/date-time < string, enum < its base type, sub-enum < enum, everything < any, array(k) ordered like k"]
 
 KINDS = ["str", "int", "num", "bool", "date", "datetime", "uuid", "enum_ab", "enum_a", "enum_cd", "ienum_12", "ienum_1", "any",
-         ["array", "int"], ["array", "num"], ["array", "str"], "model_ref"]
+         ["array", "int"], ["array", "num"], ["array", "str"], "model_ref",
+         # enums whose derived member NAMES are a subset of another's while the VALUES are not (case-folded / positional names)
+         "enum_kbx", "enum_KBxy", "enum_12xx", "enum_451xx"]
 SCH = {"enum_ab": {"type": "string", "enum": ["a", "b"]}, "enum_a": {"type": "string", "enum": ["a"]}, "enum_cd": {"type": "string", "enum": ["c", "d"]},
-       "ienum_12": {"type": "integer", "enum": [1, 2]}, "ienum_1": {"type": "integer", "enum": [1]}}
+       "ienum_12": {"type": "integer", "enum": [1, 2]}, "ienum_1": {"type": "integer", "enum": [1]},
+       "enum_kbx": {"type": "string", "enum": ["kb", "x"]}, "enum_KBxy": {"type": "string", "enum": ["KB", "x", "y"]},
+       "enum_12xx": {"type": "string", "enum": ["1xx", "2xx"]}, "enum_451xx": {"type": "string", "enum": ["4xx", "5xx", "1xx"]}}
 SAMPLE = {"str": "s", "int": 7, "num": 1.5, "bool": True, "date": "2020-01-02", "datetime": "2020-01-02T03:04:05+00:00", "uuid": K.UUID1,
-          "enum_ab": "b", "enum_a": "a", "enum_cd": "c", "ienum_12": 2, "ienum_1": 1, "any": "x", "model_ref": {"z": 1}}
+          "enum_ab": "b", "enum_a": "a", "enum_cd": "c", "ienum_12": 2, "ienum_1": 1, "any": "x", "model_ref": {"z": 1},
+          "enum_kbx": "kb", "enum_KBxy": "KB", "enum_12xx": "2xx", "enum_451xx": "4xx"}
 DEFAULT = {"str": "dv", "int": 3, "num": 2.5, "bool": False, "date": "2001-02-03", "enum_ab": "a", "enum_a": "a", "enum_cd": "d", "ienum_12": 1, "ienum_1": 1}
 
 
@@ -49,7 +54,9 @@ def sample(k):
 
 
 ABS = {"str": "str", "int": "int", "num": "num", "bool": "bool", "date": "date", "datetime": "datetime", "uuid": "uuid", "any": "any", "model_ref": "model",
-       "enum_ab": ("enum", ("a", "b")), "enum_a": ("enum", ("a",)), "enum_cd": ("enum", ("c", "d")), "ienum_12": ("enum", (1, 2)), "ienum_1": ("enum", (1,))}
+       "enum_ab": ("enum", ("a", "b")), "enum_a": ("enum", ("a",)), "enum_cd": ("enum", ("c", "d")), "ienum_12": ("enum", (1, 2)), "ienum_1": ("enum", (1,)),
+       "enum_kbx": ("enum", ("kb", "x")), "enum_KBxy": ("enum", ("KB", "x", "y")), "enum_12xx": ("enum", ("1xx", "2xx")),
+       "enum_451xx": ("enum", ("4xx", "5xx", "1xx"))}
 
 
 def abstract_of_kind(k):
@@ -137,7 +144,7 @@ def norm_abs(a):
     return a
 
 
-def build_doc(k1, k2, form, req, dflt, swapped, pname="p"):
+def build_doc(k1, k2, form, req, dflt, swapped, pname="p", collide=None):
     comps = {}
     members = []
     for i, k in enumerate((k1, k2)):
@@ -149,6 +156,9 @@ def build_doc(k1, k2, form, req, dflt, swapped, pname="p"):
             else:
                 s["default"] = DEFAULT[kname(k)]
         m = {"type": "object", "properties": {pname: s, f"only{i}": {"type": "integer"}}}
+        if collide and i == 0:
+            # a sibling whose wire name maps to the same Python identifier as the shared property: the generator keeps both apart
+            m["properties"] = {collide: {"type": "boolean"}, **m["properties"]}
         if req[i]:
             m["required"] = [pname]
         members.append(m)
@@ -182,6 +192,9 @@ def cases(tier):
             for req in ((False, False), (True, False)):
                 yield {"labels": [f"k1={kname(k1)}", f"k2={kname(k2)}", "form=ref+inline", f"req={int(req[0])}{int(req[1])}", f"name={pname}"],
                        "payload": {"mode": "pair", "k1": k1, "k2": k2, "form": "ref+inline", "req": list(req), "default": "none", "pname": pname}}
+        yield {"labels": [f"k1={kname(k1)}", f"k2={kname(k2)}", "form=ref+inline", "req=00", "name=itemCount", "sibling=item_count"],
+               "payload": {"mode": "pair", "k1": k1, "k2": k2, "form": "ref+inline", "req": [False, False], "default": "none", "pname": "itemCount",
+                           "collide": "item_count"}}
     for shape in ("chain3", "diamond", "disjoint3"):
         names = {"chain3": ["Base", "Mid", "M"], "diamond": ["Base", "Left", "Right", "M"], "disjoint3": ["P1", "P2", "P3", "M"]}[shape]
         for order in itertools.permutations(names):
@@ -256,7 +269,8 @@ def _pair(p):
     a1, a2 = abstract_of_kind(k1), abstract_of_kind(k2)
     want = narrower(a1, a2)
     pname = p.get("pname", "p")
-    docs = [build_doc(k1, k2, p["form"], p["req"], p["default"], swapped, pname) for swapped in (False, True)]
+    collide = p.get("collide")
+    docs = [build_doc(k1, k2, p["form"], p["req"], p["default"], swapped, pname, collide) for swapped in (False, True)]
     obs = [_observe(d) for d in docs]
     for o in obs:
         if o[0] == "crash":
@@ -276,7 +290,13 @@ def _pair(p):
     for o in oks:
         attrs = o[1]
         shared = [n for n in attrs if n not in ("only0", "only1")]
-        if len(shared) != 1:
+        if collide:
+            if len(shared) != 2 or collide not in shared:
+                viol.append({"oracle": "property-missing", "site": p["form"], "key": f"{pairkey}/shared+sibling",
+                             "detail": f"composed class attributes: {sorted(attrs)} (expected one for {pname!r} and one for its sibling {collide!r})"})
+            else:
+                attrs["p"] = attrs[[n for n in shared if n != collide][0]]
+        elif len(shared) != 1:
             viol.append({"oracle": "property-missing", "site": p["form"], "key": f"{pairkey}/shared", "detail": f"composed class attributes: {sorted(attrs)} (expected exactly one for {pname!r})"})
         else:
             attrs["p"] = attrs[shared[0]]
@@ -306,6 +326,8 @@ def _pair(p):
     if want is not None and oks and not viol:
         narrow_k = k1 if norm_abs(a1) == norm_abs(want) else k2
         inst = {pname: sample(narrow_k), "only0": 1, "only1": 2}
+        if collide:
+            inst[collide] = True
         for d in docs[:1]:
             rt = _roundtrip(d, inst)
             steps += 1
